@@ -1,5 +1,5 @@
 (* Props/C07.v — cw1: the proxy relays exactly the submitted messages, only when authorised. *)
-Require Import CwPlus.Params CwPlus.Base CwPlus.AMap CwPlus.Cw1Model CwPlus.Cw1Lemmas.
+Require Import CwPlus.Params CwPlus.Base CwPlus.AMap CwPlus.Cw1Model CwPlus.Cw1Lemmas CwPlus.Cw1Check CwPlus.Cw1CheckLemmas.
 Open Scope N_scope.
 
 (* whenever Execute is accepted the relayed messages are exactly the submitted ones, in order *)
@@ -43,6 +43,15 @@ Theorem c07_fail_nothing : forall st blk sender o dok,
   tx st blk sender o dok = (st, false, []).
 Proof. exact tx_cases. Qed.
 
+(* the step contract S_C07 that every run evaluates on the implementation never fires on the model's own
+   transition, accepted or refused: a reported clause is always a difference from the behaviour the theorems
+   above are about, never the contract demanding more than the model does *)
+Theorem c07_contract_never_fires_on_model : forall st blk sender o,
+  match step st blk sender o with
+  | Ok (_, rel) => s_c07 st blk sender o true rel true = 0
+  | _ => s_c07 st blk sender o false [] true = 0
+  end.
+Proof. exact s_c07_sound. Qed.
 Example c07_nonvacuous :
   exists st, instantiate (mkInit true [Some 1] true) = Ok st /\
     let st1 := run st [(mkBlock 1 1, 1, IncreaseAllowance (Some 2) (0, 10) None, true)] in
@@ -57,3 +66,4 @@ Print Assumptions c07_whitelist.
 Print Assumptions c07_subkeys.
 Print Assumptions c07_subkey_cover.
 Print Assumptions c07_fail_nothing.
+Print Assumptions c07_contract_never_fires_on_model.
